@@ -2529,6 +2529,480 @@ func apiCheckSpellings(t *testing.T) {
 	}
 }
 
+// ---------------------------------------------------------------------------------------------------------------
+// Tree monitor (bounded stand-in for the ASSUMED postcondition of Execute: the tree handed to evaluation is well formed).
+// The contracts of the evaluation-time code assume WFnode(root): every node has its embedded basic node, nodes that can
+// report an error carry an error context naming themselves with a non-empty remaining-path text, links and operands are
+// non-nil, compare operands are single-valued with the constant operand on the right ...  Nothing at parse time proves it
+// (the recogniser and the token replay are outside every contract), so here the tree built for every path of the corpora
+// is walked and those facts - plus what C12 / C14 / C15 say about the flags and texts of a finished tree - are checked.
+// apiTreeOf repeats the steps of Parse to get at the root.
+
+func apiTreeOf(path string, cfg Config) (root syntaxNode, err error) {
+	parseMutex.Lock()
+	defer func() {
+		if ex := recover(); ex != nil {
+			if e, ok := ex.(error); ok {
+				err = e
+			} else {
+				err = fmt.Errorf("panic: %v", ex)
+			}
+		}
+		parser.jsonPathParser = jsonPathParser{}
+		parseMutex.Unlock()
+	}()
+	parser.Buffer = path
+	if parser.parse == nil {
+		parser.Init()
+	} else {
+		parser.Reset()
+	}
+	parser.jsonPathParser.unescapeRegex = unescapeRegex
+	parser.jsonPathParser.filterFunctions = cfg.filterFunctions
+	parser.jsonPathParser.aggregateFunctions = cfg.aggregateFunctions
+	parser.jsonPathParser.accessorMode = cfg.accessorMode
+	parser.Parse()
+	parser.Execute()
+	return parser.jsonPathParser.root, nil
+}
+
+type wfWalk struct {
+	bad []string
+	// noTexts > 0 inside a filter operand: its nodes get no remaining-path text (setConnectedText only walks the main
+	// chain and aggregate parameters) and their errors are swallowed by the filter, so nothing is required of the texts
+	noTexts int
+}
+
+func (w *wfWalk) fail(format string, a ...interface{}) {
+	if len(w.bad) < 5 {
+		w.bad = append(w.bad, fmt.Sprintf(format, a...))
+	}
+}
+
+func wfBasicOf(n syntaxNode) *syntaxBasicNode {
+	switch v := n.(type) {
+	case *syntaxRootIdentifier:
+		return v.syntaxBasicNode
+	case *syntaxCurrentRootIdentifier:
+		return v.syntaxBasicNode
+	case *syntaxChildSingleIdentifier:
+		return v.syntaxBasicNode
+	case *syntaxChildWildcardIdentifier:
+		return v.syntaxBasicNode
+	case *syntaxChildMultiIdentifier:
+		return v.syntaxBasicNode
+	case *syntaxRecursiveChildIdentifier:
+		return v.syntaxBasicNode
+	case *syntaxUnionQualifier:
+		return v.syntaxBasicNode
+	case *syntaxFilterQualifier:
+		return v.syntaxBasicNode
+	case *syntaxFilterFunction:
+		return v.syntaxBasicNode
+	case *syntaxAggregateFunction:
+		return v.syntaxBasicNode
+	}
+	return nil
+}
+
+// errCtx: a node that can report an error names itself and (unless it is an inner identifier of a multi-name selector,
+// which never reports an error of its own) has a remaining-path text
+func (w *wfWalk) errCtx(what string, b *syntaxBasicNode, inner bool) {
+	if b.errorRuntime == nil || b.errorRuntime.node == nil {
+		w.fail("%s has no error context", what)
+		return
+	}
+	if b.errorRuntime.node != b {
+		w.fail("%s reports errors in the name of another node", what)
+	}
+	if !inner && w.noTexts == 0 && len(b.connectedText) == 0 {
+		w.fail("%s has an empty remaining-path text", what)
+	}
+	if !inner && len(b.text) == 0 {
+		w.fail("%s has an empty text", what)
+	}
+}
+
+// chain walks a next-chain: mode is the accessor flag every node on it must carry, postfix what follows its last node in
+// the remaining-path texts.  It returns whether the chain is single-valued.
+func (w *wfWalk) chain(head syntaxNode, mode bool, postfix string, depth int) (single bool) {
+	if depth > 200 {
+		w.fail("chain nesting deeper than 200")
+		return
+	}
+	single = true
+	anyGroup := false
+	steps := 0
+	for n := head; n != nil; n = wfBasicOf(n).next {
+		steps++
+		if steps > 10000 {
+			w.fail("a chain does not end (cycle)")
+			return
+		}
+		b := wfBasicOf(n)
+		what := fmt.Sprintf("%T %q", n, "")
+		if b == nil {
+			w.fail("%T without a basic node", n)
+			return
+		}
+		what = fmt.Sprintf("%T %q", n, b.text)
+		if b.accessorMode != mode {
+			w.fail("%s has accessor flag %v on a chain evaluated with %v", what, b.accessorMode, mode)
+		}
+		rest := postfix
+		if b.next != nil {
+			nb := wfBasicOf(b.next)
+			if nb == nil {
+				w.fail("%s is followed by a %T without a basic node", what, b.next)
+				return
+			}
+			rest = nb.connectedText
+		}
+		if w.noTexts == 0 && b.connectedText != b.text+rest {
+			w.fail("%s: remaining-path text %q is not its text followed by %q", what, b.connectedText, rest)
+		}
+		anyGroup = anyGroup || b.valueGroup
+		switch v := n.(type) {
+		case *syntaxRootIdentifier, *syntaxCurrentRootIdentifier:
+			if n != head {
+				w.fail("%s in the middle of a chain", what)
+			}
+		case *syntaxChildSingleIdentifier:
+			w.errCtx(what, b, false)
+		case *syntaxChildWildcardIdentifier:
+			w.errCtx(what, b, false)
+			single = false
+		case *syntaxChildMultiIdentifier:
+			w.errCtx(what, b, false)
+			single = false
+			if len(v.identifiers) < 2 {
+				w.fail("%s has %d names", what, len(v.identifiers))
+			}
+			allWild := true
+			for _, id := range v.identifiers {
+				ib := wfBasicOf(id)
+				if id == nil || ib == nil {
+					w.fail("%s holds a nil identifier", what)
+					continue
+				}
+				switch id.(type) {
+				case *syntaxChildSingleIdentifier:
+					allWild = false
+				case *syntaxChildWildcardIdentifier:
+				default:
+					w.fail("%s holds a %T", what, id)
+				}
+				w.errCtx(what+" / inner "+ib.text, ib, true)
+				if ib.accessorMode != mode {
+					w.fail("%s: inner %s has accessor flag %v, the chain %v", what, ib.text, ib.accessorMode, mode)
+				}
+				if ib.next != b.next {
+					w.fail("%s: inner %s is not followed by the selector's successor", what, ib.text)
+				}
+			}
+			if allWild != v.isAllWildcard {
+				w.fail("%s: all-wildcard flag %v, identifiers say %v", what, v.isAllWildcard, allWild)
+			}
+			if v.isAllWildcard {
+				ub := v.unionQualifier.syntaxBasicNode
+				if ub == nil {
+					w.fail("%s: the union twin has no basic node", what)
+				} else {
+					w.errCtx(what+" / union twin", ub, false)
+					if ub.accessorMode != mode || ub.next != b.next || (w.noTexts == 0 && ub.connectedText != b.connectedText) || ub.text != b.text {
+						w.fail("%s: the union twin differs from the selector (flag, successor or texts)", what)
+					}
+					if len(v.unionQualifier.subscripts) != len(v.identifiers) {
+						w.fail("%s: %d wildcards but %d subscripts in the union twin", what, len(v.identifiers), len(v.unionQualifier.subscripts))
+					}
+					for _, sub := range v.unionQualifier.subscripts {
+						if _, ok := sub.(*syntaxWildcardSubscript); !ok {
+							w.fail("%s: the union twin holds a %T", what, sub)
+						}
+					}
+				}
+			}
+		case *syntaxRecursiveChildIdentifier:
+			w.errCtx(what, b, false)
+			single = false
+			if b.next == nil {
+				w.fail("%s without a successor", what)
+			} else {
+				wantMap, wantList := false, false
+				switch b.next.(type) {
+				case *syntaxChildWildcardIdentifier, *syntaxChildMultiIdentifier, *syntaxFilterQualifier:
+					wantMap, wantList = true, true
+				case *syntaxChildSingleIdentifier:
+					wantMap = true
+				case *syntaxUnionQualifier:
+					wantList = true
+				}
+				if v.nextMapRequired != wantMap || v.nextListRequired != wantList {
+					w.fail("%s before %T: visits objects %v / arrays %v", what, b.next, v.nextMapRequired, v.nextListRequired)
+				}
+			}
+		case *syntaxUnionQualifier:
+			w.errCtx(what, b, false)
+			if len(v.subscripts) == 0 {
+				w.fail("%s has no subscript", what)
+			}
+			group := len(v.subscripts) > 1
+			for _, sub := range v.subscripts {
+				switch sv := sub.(type) {
+				case *syntaxIndexSubscript:
+					if sv == nil || sv.syntaxBasicSubscript == nil {
+						w.fail("%s holds an incomplete index", what)
+					}
+				case *syntaxSlicePositiveStepSubscript:
+					group = true
+					if sv == nil || sv.start == nil || sv.end == nil || sv.step == nil || sv.step.number < 0 {
+						w.fail("%s holds an incomplete positive-step slice", what)
+					}
+				case *syntaxSliceNegativeStepSubscript:
+					group = true
+					if sv == nil || sv.start == nil || sv.end == nil || sv.step == nil || sv.step.number >= 0 {
+						w.fail("%s holds an incomplete negative-step slice", what)
+					}
+				case *syntaxWildcardSubscript:
+					group = true
+				default:
+					w.fail("%s holds a %T", what, sub)
+				}
+			}
+			if group {
+				single = false
+			}
+			if (n != head && b.valueGroup != group) || (group && !b.valueGroup) {
+				// (the head of a chain also carries the flag of the whole chain)
+				w.fail("%s: value-group flag %v, subscripts say %v", what, b.valueGroup, group)
+			}
+		case *syntaxFilterQualifier:
+			w.errCtx(what, b, false)
+			single = false
+			if v.query == nil {
+				w.fail("%s without a query", what)
+			} else {
+				w.noTexts++
+				w.query(v.query, depth+1)
+				w.noTexts--
+			}
+		case *syntaxFilterFunction:
+			w.errCtx(what, b, false)
+			if v.function == nil {
+				w.fail("%s without a function", what)
+			}
+		case *syntaxAggregateFunction:
+			w.errCtx(what, b, false)
+			if v.function == nil {
+				w.fail("%s without a function", what)
+			}
+			if n != head {
+				w.fail("%s in the middle of a chain (an aggregate heads the chain, what precedes it is its parameter)", what)
+			}
+			if v.param == nil {
+				w.fail("%s without a parameter path", what)
+			} else {
+				w.chain(v.param, false, b.connectedText, depth+1)
+			}
+			single = true
+		default:
+			w.fail("unknown node type %T", n)
+		}
+	}
+	hb := wfBasicOf(head)
+	if hb != nil {
+		if _, isAgg := head.(*syntaxAggregateFunction); !isAgg && hb.valueGroup != anyGroup {
+			w.fail("%T %q heads a chain whose value-group flag is %v but its steps say %v", head, hb.text, hb.valueGroup, anyGroup)
+		}
+		if !anyGroup && !single {
+			w.fail("%T %q: chain is multi-valued by its step kinds but no step carries the value-group flag", head, hb.text)
+		}
+	}
+	return single
+}
+
+func (w *wfWalk) query(q syntaxQuery, depth int) {
+	if depth > 200 {
+		w.fail("query nesting deeper than 200")
+		return
+	}
+	switch v := q.(type) {
+	case *syntaxLogicalAnd:
+		if v.leftQuery == nil || v.rightQuery == nil {
+			w.fail("&& with a missing operand")
+			return
+		}
+		w.query(v.leftQuery, depth+1)
+		w.query(v.rightQuery, depth+1)
+	case *syntaxLogicalOr:
+		if v.leftQuery == nil || v.rightQuery == nil {
+			w.fail("|| with a missing operand")
+			return
+		}
+		w.query(v.leftQuery, depth+1)
+		w.query(v.rightQuery, depth+1)
+	case *syntaxLogicalNot:
+		if v.query == nil {
+			w.fail("! without an operand")
+			return
+		}
+		w.query(v.query, depth+1)
+	case *syntaxBasicCompareQuery:
+		if v.leftParam == nil || v.rightParam == nil || v.comparator == nil || v.leftParam.param == nil || v.rightParam.param == nil {
+			w.fail("comparison with a missing operand or comparator")
+			return
+		}
+		if !v.rightParam.isLiteral {
+			w.fail("comparison whose right operand is neither a literal nor $-rooted")
+		}
+		_, lcur := v.leftParam.param.(*syntaxQueryParamCurrentRoot)
+		_, rcur := v.rightParam.param.(*syntaxQueryParamCurrentRoot)
+		if lcur && rcur {
+			w.fail("comparison of two current-node operands")
+		}
+		for _, cp := range []*syntaxBasicCompareParameter{v.leftParam, v.rightParam} {
+			switch pv := cp.param.(type) {
+			case *syntaxQueryParamLiteral:
+				if len(pv.literal) != 1 || pv.literal[0] == emptyEntity {
+					w.fail("literal operand does not hold exactly one value")
+				}
+				if !cp.isLiteral {
+					w.fail("literal operand not flagged as literal")
+				}
+			case *syntaxQueryParamRoot:
+				if pv.param == nil {
+					w.fail("$ operand without a path")
+				} else if !w.chain(pv.param, false, "", depth+1) || wfBasicOf(pv.param).valueGroup {
+					w.fail("$ operand of a comparison is multi-valued")
+				}
+				if !cp.isLiteral {
+					w.fail("$ operand not flagged as constant")
+				}
+			case *syntaxQueryParamCurrentRoot:
+				if pv.param == nil {
+					w.fail("@ operand without a path")
+				} else if !w.chain(pv.param, false, "", depth+1) || wfBasicOf(pv.param).valueGroup {
+					w.fail("@ operand of a comparison is multi-valued")
+				}
+				if cp.isLiteral {
+					w.fail("@ operand flagged as constant")
+				}
+			default:
+				w.fail("comparison operand of type %T", cp.param)
+			}
+		}
+		switch c := v.comparator.(type) {
+		case *syntaxCompareDirectEQ:
+			if c.syntaxTypeValidator == nil {
+				w.fail("direct == without a type validator")
+			}
+			lit, ok := v.rightParam.param.(*syntaxQueryParamLiteral)
+			if !ok {
+				w.fail("direct == whose right operand is not a literal")
+			} else if len(lit.literal) == 1 {
+				want := ""
+				switch lit.literal[0].(type) {
+				case float64:
+					want = "*jsonpath.syntaxBasicNumericTypeValidator"
+				case string:
+					want = "*jsonpath.syntaxBasicStringTypeValidator"
+				case bool:
+					want = "*jsonpath.syntaxBasicBoolTypeValidator"
+				case nil:
+					want = "*jsonpath.syntaxBasicNilTypeValidator"
+				}
+				if got := fmt.Sprintf("%T", c.syntaxTypeValidator); got != want {
+					w.fail("direct == against %T uses %s", lit.literal[0], got)
+				}
+			}
+		case *syntaxCompareDeepEQ:
+			if _, ok := v.rightParam.param.(*syntaxQueryParamLiteral); ok {
+				w.fail("deep == against a literal")
+			}
+		case *syntaxCompareGE, *syntaxCompareGT, *syntaxCompareLE, *syntaxCompareLT:
+		case *syntaxCompareRegex:
+			if c.regex == nil {
+				w.fail("=~ without a compiled pattern")
+			}
+		default:
+			w.fail("comparator of type %T", v.comparator)
+		}
+	case *syntaxQueryParamRoot:
+		if v.param == nil {
+			w.fail("$ filter without a path")
+		} else {
+			w.chain(v.param, false, "", depth+1)
+		}
+	case *syntaxQueryParamCurrentRoot:
+		if v.param == nil {
+			w.fail("@ filter without a path")
+		} else {
+			w.chain(v.param, false, "", depth+1)
+		}
+	default:
+		w.fail("query of type %T", q)
+	}
+}
+
+func apiCheckTree(t *testing.T, path string, cfg Config) bool {
+	apiCount()
+	root, err := apiTreeOf(path, cfg)
+	if err != nil {
+		return true
+	}
+	if root == nil {
+		t.Errorf("REPRODUCED: tree monitor: %q parses to a nil root", path)
+		return false
+	}
+	w := &wfWalk{}
+	func() {
+		defer func() {
+			if r := recover(); r != nil {
+				w.fail("walking the tree panicked: %v", r)
+			}
+		}()
+		w.chain(root, cfg.accessorMode, "", 0)
+	}()
+	if len(w.bad) > 0 {
+		t.Errorf("REPRODUCED: tree monitor: the tree built for %q (accessor mode %v) is not well formed: %s", path, cfg.accessorMode, strings.Join(w.bad, "; "))
+		return false
+	}
+	return true
+}
+
+// apiCheckTrees: the monitor over the parse corpus, the C01 fragment and generated spellings, in both modes
+func apiCheckTrees(t *testing.T) {
+	paths, cfg := apiParseCorpus()
+	acc := cfg
+	acc.SetAccessorMode()
+	pool := refPool()
+	for _, a := range pool {
+		paths = append(paths, refRender([]refStep{a}))
+		for _, b := range pool {
+			paths = append(paths, refRender([]refStep{a, b}), refRender([]refStep{a, b})+".g()", refRender([]refStep{a, b})+".f().g().f()")
+		}
+	}
+	g := &spGen{r: rand.New(rand.NewSource(2))}
+	n := 1500
+	if apiThorough {
+		n = 20000
+	}
+	for i := 0; i < n; i++ {
+		steps := g.pathSteps()
+		for k := range steps {
+			if steps[k].kind == "func" {
+				steps[k].key = map[string]string{"count": "g", "twice": "f"}[steps[k].key]
+			}
+		}
+		paths = append(paths, (&sp{r: rand.New(rand.NewSource(int64(i)))}).steps(steps, "$", true))
+	}
+	for _, p := range paths {
+		if !apiCheckTree(t, p, cfg) || !apiCheckTree(t, p, acc) {
+			return
+		}
+	}
+}
+
 type apiStruct struct{ X int }
 
 // C20: documents with non-JSON leaves
@@ -2576,6 +3050,9 @@ func TestVerifReplay(t *testing.T) {
 		}
 	case "C02":
 		apiCheckParseTotal(t)
+		if !t.Failed() {
+			apiCheckTrees(t)
+		}
 	case "C17":
 		apiCheckGrammar(t)
 	case "C19":
@@ -2616,6 +3093,13 @@ func TestVerifReplay(t *testing.T) {
 			names = append(names, ds+" (UseNumber)")
 		}
 		apiCheckTotal(t, docs, names)
+	}
+	switch rec.Property {
+	case "C01", "C07", "C08", "C12", "C14", "C15":
+		// these lean on the assumed well-formedness of the parsed tree (links, flags, texts): the tree monitor runs with them
+		if !t.Failed() {
+			apiCheckTrees(t)
+		}
 	}
 	_ = reflect.DeepEqual
 	fmt.Printf("BOUNDED-CASES: %d\n", atomic.LoadInt64(&apiCases))
